@@ -284,6 +284,69 @@ def case(rng, idx, params):
 
 
 def replay(witness):
+    if witness.get("scenario", {}).get("check") == "c09.hexital-chain":
+        bad = check_hexital_chain(witness["scenario"])
+        return {"fails": bad is not None, "detail": bad}
     viol, _ = check(fix_sched(witness["scenario"]))
     want = witness.get("signature")
     return {"fails": viol is not None and (want is None or viol["signature"] == want), "detail": viol}
+
+
+# ---------------------------------------------------------------- a chained pair inside a Hexital, in either registration order
+
+
+def check_hexital_chain(scn):
+    """a reader whose input_value names another member's reading, registered BEFORE or after its source: calculation order follows
+    registration order, so a reader listed first sees no input yet on the newest candle - it must simply stay None there (and never
+    raise), whatever arrives later"""
+    from hexital import indicators as I
+    from hexital.core.hexital import Hexital
+
+    def member(kind, kw, as_dict):
+        if as_dict:
+            key = next(k for k, v in I.INDICATOR_MAP.items() if v is getattr(I, kind))
+            return {"indicator": key, **kw}
+        return getattr(I, kind)(**kw)
+
+    src = member(scn["src"][0], scn["src"][1], scn.get("dicts"))
+    rdr = member(scn["rdr"][0], scn["rdr"][1], scn.get("dicts"))
+    members = [rdr, src] if scn["reader_first"] else [src, rdr]
+    stream = scn["stream"]
+    try:
+        hx = Hexital("chain", mk_candles(stream[: scn["init"]]), members)
+        hx.calculate()
+        for r in stream[scn["init"]:]:
+            hx.append(mk_candles([r])[0])
+    except Exception as e:
+        return {"clause": f"raised:{type(e).__name__}", "observed": repr(e)[:160], "expected": "no exception", "reader_first": scn["reader_first"],
+                "signature": f"C09:hexital-chain:{scn['rdr'][0]}:{type(e).__name__}"}
+    for t, c in enumerate(hx.candles()):
+        for store in (c.indicators, c.sub_indicators):
+            for name, val in store.items():
+                for f, v in (val.items() if isinstance(val, dict) else [("", val)]):
+                    b = _bad_value(v)
+                    if b:
+                        return {"clause": f"{b}:{name}", "index": t, "observed": repr(v), "expected": "None, bool or finite number",
+                                "signature": f"C09:hexital-chain:{scn['rdr'][0]}:{b}"}
+    return None
+
+
+def case_hexital_chain(rng, idx, params):
+    sk = rng.choice(["EMA", "SMA", "WMA", "RMA", "RSI"])
+    sp = rng.randint(2, 5)
+    src_kw = {"period": sp}
+    name = f"{sk}_{sp}"
+    rk = rng.choice(["SMA", "EMA", "RMA", "WMA", "RSI", "StandardDeviation", "TSI", "BBANDS", "StandardDeviationThreshold", "HMA", "MACD"])
+    rkw = {"input_value": name}
+    if rk == "MACD":
+        rkw.update(fast_period=2, slow_period=rng.randint(3, 5), signal_period=2)
+    else:
+        rkw["period"] = rng.randint(2, 5)
+    n = rng.randint(6, 40)
+    stream, meta = gen.gen_stream(rng, n, price_style=rng.choice(["walk", "flat", "rising", "repeat", "jumpy"]), ts_style="regular", step=60)
+    scn = {"check": "c09.hexital-chain", "src": [sk, src_kw], "rdr": [rk, rkw], "reader_first": rng.random() < 0.6, "dicts": rng.random() < 0.4,
+           "stream": stream, "init": rng.randint(0, n // 2)}
+    bad = check_hexital_chain(scn)
+    viol = {"scenario": scn, **bad} if bad else None
+    meta.update({"kind": "hexital-chain:" + rk, "reader_first": scn["reader_first"]})
+    return {"nontrivial": True, "key": hash(str(scn)), "violation": viol, "meta": meta, "evals": n, "sample": None}
